@@ -167,7 +167,10 @@ class Runner:
     def send(self, name, i):
         tag = i['s']
         if i['op'] == 'M':
-            self.addr.send_msg(tag, 1)
+            if i['nk'] == 0 or MODE == 'nrt':
+                self.addr.send_msg(tag, 1)
+            else:       # a completion bundle as an argument of the message
+                self.addr.send_msg(tag, 1, [None if i['nk'] == 2 else i['na'] / TU, [tag, 2]])
             return
         lat = None if i['b'] == 1 else i['a'] / TU
         # user code often keeps a message / bundle list and sends it again: the element lists are built once
@@ -289,6 +292,10 @@ def rd_msg(b):
         if t == 'i':
             args.append(struct.unpack('>i', b[i:i + 4])[0])
             i += 4
+        elif t == 'b':
+            n = struct.unpack('>i', b[i:i + 4])[0]
+            args.append(bytes(b[i + 4:i + 4 + n]))
+            i += 4 + ((n + 3) & ~3)
         else:
             raise ValueError('unexpected type tag ' + t)
     if i != len(b):
@@ -390,7 +397,12 @@ def run_rt(S, prog):
                 R.ev.append(E('bndl', r=who, tag=els[0][1][0], sk=sk, stamp=stamp, subk=subk, sub=sub))
         else:
             a, args = rd_msg(d)
-            R.ev.append(E('bndl', r=R.cur(), tag=a, sk='m'))
+            subk, sub = '-', 0
+            for x in args:
+                if isinstance(x, bytes) and x[:8] == b'#bundle\0':
+                    t2 = rd_bundle(x)[0]
+                    subk, sub = ('i', 0) if t2 == 1 else ('t', tag2units(t2 - offset, 0) - base_units)
+            R.ev.append(E('bndl', r=R.cur(), tag=a, sk='m', subk=subk, sub=sub))
 
     def cur():
         if S.cur.label == 'user':
